@@ -496,14 +496,8 @@ func (r *Run) postCloseProgram(sig string, conns []*websocket.Conn, closerReturn
 				case 1:
 					rc.err = p.c.Write(ctx, websocket.MessageText, []byte("after close"))
 				case 2:
-					w, err := p.c.Writer(ctx, websocket.MessageBinary)
-					if err == nil {
-						_, err = w.Write([]byte("x"))
-						if err == nil {
-							err = w.Close()
-						}
-					}
-					rc.err = err
+					// (Writer itself has to fail, not only the writes through it)
+					_, rc.err = p.c.Writer(ctx, websocket.MessageBinary)
 				case 3:
 					rc.err = p.c.Ping(ctx)
 				case 4:
